@@ -528,6 +528,75 @@ func concBody(g lstore.Geometry, variant int) func() {
 	}
 }
 
+// fmRaceBody: the store is aged so that its first blocks are old; x sits in a newer (not old) block and is
+// corrupted. FindMissing over all objects (which refreshes the objects in old blocks by copying them in a
+// second pass) races with the Get that detects the corruption and thereby quarantines the old blocks too.
+// Refresh copies go to the newest block, which is newer than x's, so: an object that needed a refresh when
+// FindMissing started and that FindMissing reports present was copied, hence must be resolvable afterwards;
+// one that could not be copied any more must be reported missing.
+func fmRaceBody(g lstore.Geometry) func() {
+	return func() {
+		w := newWorld(g)
+		for i := 0; i < 2; i++ {
+			f := casObj("R16", fmt.Sprintf("ageing-filler-%02d", i))
+			if err := w.put(f); err != nil {
+				vsched.HarnessFail("ageing upload: %v", err)
+			}
+		}
+		w.locate()
+		var x *obj
+		var old []*obj
+		for _, o := range w.objs {
+			if w.s.NeedsRefresh(o.Digest) {
+				old = append(old, o)
+			} else if o.block >= 0 && (x == nil || o.block < x.block) {
+				x = o // the oldest object that is not in an old block
+			}
+		}
+		if x == nil || len(old) == 0 {
+			vsched.HarnessFail("ageing did not produce old blocks below a non-old object (old=%d)", len(old))
+		}
+		for _, o := range w.objs {
+			o.off = w.findOnDevice(o)
+		}
+		w.corrupt(x.off, len(x.Content))
+		var ds []digest.Digest
+		for _, o := range w.objs {
+			ds = append(ds, o.Digest)
+		}
+		var miss map[string]bool
+		var fmErr error
+		var wg vsync.WaitGroup
+		wg.Add(2)
+		vsched.GoNamed("detect", false, func() {
+			defer wg.Done()
+			_, err := w.s.Get(x.Digest)
+			vsched.Obs("detect=%s", status.Code(err))
+			if err == nil {
+				failf("corrupted-read-completed", "Get(%s) completed although its bytes are corrupted", x.Name)
+			}
+		})
+		vsched.GoNamed("findmissing", false, func() {
+			defer wg.Done()
+			miss, fmErr = w.s.FindMissing(ds...)
+			vsched.Obs("FM=%s", status.Code(fmErr))
+		})
+		wg.Wait()
+		if fmErr != nil {
+			if status.Code(fmErr) != codes.Internal {
+				failf("findmissing-error-"+status.Code(fmErr).String(), "FindMissing failed: %v", fmErr)
+			}
+			return
+		}
+		for _, o := range old {
+			if !miss[o.Digest.String()] && !w.indexHas(o) && w.s.IndexDiscards() == 0 {
+				failf("quarantined-object-reported-present", "%s lay in an old block when FindMissing started (so it had to be copied to be kept); FindMissing reports it present, but after both calls returned nothing resolves it: it was quarantined before it could be copied and must have been reported missing", o.Name)
+			}
+			vsched.Mark()
+		}
+	}
+}
+
 // hierDedupBody: hierarchical store, X and Y stored under instance name a in the same block; the bytes of Y
 // are corrupted. A gated upload of X under instance name b (which the store de-duplicates against the copy
 // it already holds instead of storing the data again) is in flight while Get(a/Y) detects the corruption.
@@ -628,6 +697,7 @@ func main() {
 	for v := 0; v < 4; v++ {
 		scs = append(scs, mc.Scenario{Name: fmt.Sprintf("conc/variant%d", v), Space: []string{"detecting Get(x) || upload in flight into x's block || Get(neighbour)", "detecting Get(x) || upload in flight into x's block || three block-sized uploads forcing rotations", "x in the oldest block: detection || upload || three block-sized uploads forcing rotations", "x in a middle block: detection || upload || three block-sized uploads forcing rotations"}[v] + " on " + cg.String(), Bound: ev.Pick(r, 2, 3), Body: concBody(cg, v), Budget: time.Duration(ev.Pick(r, 40, 400)) * time.Second})
 	}
+	scs = append(scs, mc.Scenario{Name: "conc/findmissing-refresh-race", Space: "aged store (first blocks old), x corrupted in a newer block: detecting Get(x) || FindMissing(all objects) whose second pass copies the objects of the old blocks, on " + cg.String(), Bound: ev.Pick(r, 2, 3), Body: fmRaceBody(cg), Budget: time.Duration(ev.Pick(r, 40, 400)) * time.Second})
 	hg := base
 	hg.Hierarchical, hg.New, hg.DataGates = true, 2, true
 	scs = append(scs, mc.Scenario{Name: "conc/hier-dedup-upload", Space: "hierarchical store: detecting Get(a/Y) || gated upload of X under instance name b while a/X (same block as Y) is what the store de-duplicates against, on " + hg.String(), Bound: ev.Pick(r, 2, 3), Body: hierDedupBody(hg), Budget: time.Duration(ev.Pick(r, 40, 400)) * time.Second})
